@@ -256,6 +256,13 @@ def apply(world, op):
             f = fresh_equivalent(w, world)
             if f:
                 return f
+        elif kind == 'serialise':
+            # serialising is an observation: it must not change anything, now or later
+            before = agraph.snapshot(g)
+            g._to_dict()
+            if agraph.snapshot(g) != before:
+                return ('attackgraph.to_dict:changes-graph', '_to_dict() changed the graph: %s' % agraph.snap_diff(before, agraph.snapshot(g)))
+            world.count('op:serialise')
         elif kind == 'deepcopy':
             c = copy.deepcopy(g)
             world.count('op:deepcopy')
@@ -347,8 +354,10 @@ def gen_history(rng, n, generated):
             ops.append(['regenerate'])
         elif r < 0.93:
             ops.append(['deepcopy', rng.choice(['continue-on-copy', 'continue-on-original'])])
-        elif r < 0.96:
+        elif r < 0.955:
             ops.append(['save-load', rng.choice(['json', 'yml'])])
+        elif r < 0.975:
+            ops.append(['serialise'])
         else:
             ops.append(['switch', rng.randrange(4)])
     return ops
